@@ -230,8 +230,29 @@ OPENABLE = ('metricTx', 'contextNewTx', 'contextUpdateTx', 'descriptorTx', 'desc
 
 def new_bench():
     bench = lt.Bench(lt.MDIB_TWO, role_providers=False)   # no background transactions: every commit is scheduled by the harness
+    add_extensions(bench)
     tracer = lt.install_tracing(bench.mdib)
     return bench, tracer
+
+
+def add_extensions(bench):
+    """MDIB content with ext:Extension elements (the bundled two-MDS file has none): descriptors and states that the requests
+    return carry a foreign-namespace extension element (lxml elements are the one kind of content that has a parent)"""
+    from lxml import etree
+
+    def ext(text):
+        e = etree.Element('{urn:verif:c07}Note')
+        e.set('Kind', 'verif')
+        etree.SubElement(e, '{urn:verif:c07}Text').text = text
+        return e
+    m = bench.mdib
+    with m.descriptor_transaction() as tr:
+        for h in ('mds0', ALERT_COND, METRIC, CTX_DESCR, 'LC.mds0'):
+            tr.get_descriptor(h).Extension.append(ext('descriptor ' + h))
+    with m.metric_state_transaction() as tr:
+        tr.get_state(METRIC).Extension.append(ext('state ' + METRIC))
+    with m.context_state_transaction() as tr:
+        tr.get_context_state(LOC_STATE).Extension.append(ext('state ' + LOC_STATE))
 
 
 def new_state():
@@ -776,13 +797,15 @@ def _run(ctx):
         # the entity work flow (entity.states edited in place, then write_entity) for the requests that serialise state
         # objects after they released the lock
         if rname.startswith(('getMdState', 'getContextStates')) or ctx.tier == 'thorough':
-            for w in ENTITY_WRITERS:
+            for w in (ENTITY_WRITERS if ctx.tier == 'thorough' else rng.sample(ENTITY_WRITERS, 2)):
                 if w not in wsel:
                     for p in pts:
                         cases.append((rname, [w], [p]))
         # a transaction that is already OPEN (fetched its objects, holds the locks) when the request arrives and commits at
         # the yield point: on a correctly locked handler the request waits; every yield point is tried
-        osel = [w for w in wsel if w in OPENABLE][:ctx.n(2, 99)] or ['metricTx']
+        osel = [w for w in wsel if w in OPENABLE] or ['metricTx']
+        if ctx.tier != 'thorough':
+            osel = rng.sample(osel, min(len(osel), 2 if rname.startswith('getContextStates') else 1))
         for w in osel:
             for p in pts[1:]:
                 cases.append((rname, [w], [p], [True]))
